@@ -9,7 +9,7 @@ REQUIRED = ["DaeVerif.C08.Props." + n for n in [
     "janitor_time_step", "janitor_keeps", "janitor_evicts_least_recently_used", "heap_selects_oldest",
     "lookup_and_insert_stamp_last_access", "cfg_in_force", "fresh_served", "latest_insert_wins", "removed_is_gone",
     "latch_is_per_object_and_released_per_key", "request_key_injective", "request_key_class_IN",
-    "request_touches_only_its_key",
+    "request_touches_only_its_key", "entry_ttl_is_minimum_over_answers",
 ]]
 
 
@@ -203,6 +203,25 @@ def run(ctx):
             ctx.report("simultaneous lookups of a name that had been idle: one was answered with the TTL packed before the idle "
                        f"period — {bad[0][1]} with {bad[0][2]} s of lifetime left (slack 15 s); {len(bad)} of 50 bursts",
                        {"scenario": bad[:5]}, key="c08-concurrent-lookup-stale-packed-ttl")
+    seg = segment("shortest-answer-ttl")
+    if seg is not None:
+        looks = [im for op, im in seg if op.startswith("look ")]
+        if not (len(looks) == 2 and looks[0].startswith("hit") and looks[1] == "miss"):
+            ctx.report("a reply [first record TTL 3600, second record TTL 30] is still served 600 s later (the entry must live as "
+                       f"long as its shortest-lived answer record): lookups at +29 s / +600 s: {looks}", {"scenario": seg},
+                       key="c08-first-answer-ttl-only")
+    seg = segment("fixed-ttl-trailing-dot")
+    if seg is not None:
+        looks = [im for op, im in seg if op.startswith("look ")]
+        if not (len(looks) == 2 and looks[0].startswith("hit") and "ttl=10 " in looks[0] and looks[1] == "miss"):
+            ctx.report("fixed_domain_ttl{ddns.example.org.: 10} (trailing dot) is not applied: reply TTL 3600, lookups at "
+                       f"+9 s / +11 s: {looks}", {"scenario": seg}, key="c08-fixed-ttl-trailing-dot")
+    seg = segment("negative-window")
+    if seg is not None:
+        tries = [im for op, im in seg if op.startswith("cfgtry ")]
+        if not (len(tries) == 2 and all(x == "cfg rejected" for x in tries)):
+            ctx.report(f"a negative optimistic_cache_ttl is accepted as a configuration (unbounded stale window, no time "
+                       f"eviction): {tries}", {"scenario": seg}, key="c08-negative-stale-window-unbounded")
     seg = segment("reuse-reload-config")
     if seg is not None:
         recs = [im for op, im in seg if op.startswith("reconf ")]
